@@ -681,4 +681,73 @@ def fillMore (size start «end» avail : Nat) : Option (Nat × Nat) :=
   let unread := «end» - start
   if unread = size then none else some (0, min avail (size - unread))
 
+/-! ## 17. tcpStream: the drain side (stage / flush) -/
+
+/-- what the connection goroutine does with its drain buffer -/
+inductive DOp
+  | stage (id len : Nat)   -- a reply of `len` bytes (tcpJob.Write / WriteMsg → stream.stage)
+  | flush                  -- before the connection blocks, at a slow-path entry, on the way out
+  | break                  -- environment: the peer is gone, every later write on the connection fails
+deriving DecidableEq, Repr
+
+/-- `tcpStream` (drain side): replies staged and not yet written, bytes held,
+the sticky write error, what reached the connection (in order), and whether
+the peer is still there -/
+structure Drain where
+  staged : List Nat := []
+  held : Nat := 0
+  werr : Bool := false
+  wire : List Nat := []
+  broken : Bool := false
+deriving DecidableEq, Repr
+
+/-- `func (s *tcpStream) flush() error`; the Bool is "returned nil" -/
+def Drain.flush (d : Drain) : Drain × Bool :=
+  if d.werr then (d, false)
+  else if d.held = 0 then (d, true)
+  else if d.broken then ({ d with staged := [], held := 0, werr := true }, false)
+  else ({ d with wire := d.wire ++ d.staged, staged := [], held := 0 }, true)
+
+/-- `func (s *tcpStream) stage(payload) error` with `drainSize = len(s.drain)`,
+`maxMsg = dns.MaxMsgSize`, 2 = the frame prefix -/
+def Drain.stage (drainSize maxMsg : Nat) (d : Drain) (id len : Nat) : Drain × Bool :=
+  if d.werr then (d, false)
+  else if len > maxMsg then (d, false)
+  else if len + 2 > drainSize then
+    -- larger than the drain buffer: flush what is staged, then write this frame on its own
+    let f := d.flush
+    if !f.2 then f
+    else if f.1.broken then ({ f.1 with werr := true }, false)
+    else ({ f.1 with wire := f.1.wire ++ [id] }, true)
+  else
+    let f := if d.held + (len + 2) > drainSize then d.flush else (d, true)
+    if !f.2 then f
+    else ({ f.1 with staged := f.1.staged ++ [id], held := f.1.held + (len + 2) }, true)
+
+def Drain.step (drainSize maxMsg : Nat) (d : Drain) : DOp → Drain × Bool
+  | .stage id len => d.stage drainSize maxMsg id len
+  | .flush => d.flush
+  | .break => ({ d with broken := true }, true)
+
+def Drain.run (drainSize maxMsg : Nat) (d : Drain) : List DOp → Drain × List Bool
+  | [] => (d, [])
+  | o :: os =>
+    let r := d.step drainSize maxMsg o
+    let rest := Drain.run drainSize maxMsg r.1 os
+    (rest.1, r.2 :: rest.2)
+
+/-- the replies handed to `stage`, in order -/
+def stagedIds : List DOp → List Nat
+  | [] => []
+  | .stage id _ :: os => id :: stagedIds os
+  | _ :: os => stagedIds os
+
+/-- no write on the connection ever fails and no reply exceeds dns.MaxMsgSize -/
+def noBreak : List DOp → Bool
+  | [] => true
+  | .break :: _ => false
+  | .stage _ len :: os => decide (len ≤ 65535) && noBreak os
+  | .flush :: os => noBreak os
+
+
 end SdnsVerif.Model.OneReply
